@@ -165,6 +165,73 @@ def emissions(m, fw):
     return out, notes
 
 
+
+def alignment_by_paths(ctx, fi, dc, why):
+    """G1-G3 decided by abstract interpretation (the C14 interpreter: all option paths, helpers / classmethod constructors followed, records
+    field by field): every value carries the sequence it is index-aligned with - the stored order of a loaded or database signature object,
+    or the file order of one get_sequence_files call (ids, files, the SequenceFile objects and the signatures computed from them).  At the
+    writer, on every path: row labels aligned with the first matrix operand, column labels with the second, and each side fed by its own options."""
+    rep, m = ctx.rep, ctx.model
+    from .c14 import Interp
+    it = Interp(ctx, fi).run()
+    rep.require(bool(it.dumps), f'{why}; and no dump_dmat_csv evaluation is reached on the abstract paths')
+    rep.info['alignment_decided_by'] = f'abstract paths ({len(it.dumps)} writer evaluations); locals-based rules: {why}'
+    Q_OBJ, R_OBJ, DB = ('obj', 'load:qs'), ('obj', 'load:rs'), ('obj', 'DB')
+    Q_FILES, R_FILES = ('files', 'q, ql, qdir'), ('files', 'r, rl, rdir')
+    bad = dict(orient=[], own=[], side=[], mode=[], files=[], out=[])
+
+    def truth(st, name):
+        v = st.env.get(name)
+        return True if v is not None and v.kind == 'true' else False if v is not None and v.kind == 'false' else None
+    rep.trusted.append('check_params_group(ctx, names, exclusive=True, ...) exits unless at most one of the named options is given (paths with two of them are infeasible)')
+    skipped = 0
+    for (call, (fv, mv, rv, cv), st) in it.dumps:
+        where = ' ; '.join(str(t) for t in st.trail[-8:])
+        given = lambda n_: st.env.get(n_) is not None and st.env[n_].kind in ('true', 'other')        # refined to True / not None on this path
+        if any(v.kind == 'group' and sum(1 for n_ in v.ent if given(n_)) > 1 for k, v in st.env.items() if isinstance(k, tuple) and k[0] == 'group'):
+            skipped += 1
+            continue
+        rep.require(mv.kind == 'mat', f'{why}; on path [{where}] the matrix written is not the plain result of jaccarddist_matrix / jaccarddist_pairwise')
+        mode, pq, pr = mv.ent
+        rep.require(pq is not None and pr is not None, f'{why}; on path [{where}] the order of a matrix operand is unknown (its provenance was lost)')
+        for role, lv, own, other in (('row', rv, pq, pr), ('column', cv, pr, pq)):
+            if lv.kind == 'files':
+                bad['own'].append(f'{role} labels are the file objects of {lv.prov}, not the ids, on path [{where}]')
+                continue
+            rep.require(lv.kind == 'ids' and lv.prov is not None, f'{why}; on path [{where}] the {role} labels are of unknown provenance ({lv})')
+            if lv.prov != own:
+                bad['orient' if lv.prov == other else 'own'].append(f'{role} labels follow {lv.prov}, the matrix {role}s follow {own} on path [{where}]')
+        if pq not in (Q_OBJ, Q_FILES):
+            bad['files' if pq[0] == 'files' else 'side'].append(f'queries come from {pq} on path [{where}]')
+        sq, udb = truth(st, 'square'), truth(st, 'use_db')
+        if mode == 'pairwise':
+            if sq is not True:
+                bad['mode'].append(f'all-pairs matrix of the queries written although --square is {"absent" if sq is False else "not consulted"} on path [{where}]')
+        else:
+            if sq is not False:
+                bad['mode'].append(f'query x reference matrix written although --square is {"given" if sq else "not consulted"} on path [{where}]')
+            if not (pr in (R_OBJ, R_FILES) or (pr == DB and udb is True)):
+                bad['files' if pr[0] == 'files' else 'side'].append(f'references come from {pr} (--use-db {"given" if udb else "absent" if udb is False else "not consulted"}) on path [{where}]')
+        if fv.prov != ('param', 'output'):
+            bad['out'].append(f'written to {fv} on path [{where}]')
+    n = len(it.dumps) - skipped
+    rep.require(n > 0, f'{why}; and every abstract path to the writer is infeasible')
+    rep.add('G2', fi.site(dc), f'row labels are aligned with the first matrix operand and column labels with the second on every abstract path ({n} paths): not swapped', not bad['orient'],
+            expected='labels of each axis aligned with the operand of that axis', found=bad['orient'][:2] or 'ok', stmt='label orientation (paths)')
+    rep.add('G1', fi.site(dc), f'the labels of each axis are index-aligned with the source of that axis (stored ids of the same object / ids of the same get_sequence_files call) on every abstract path ({n} paths)',
+            not bad['own'], expected='ids travel with their source', found=bad['own'][:2] or 'ok', stmt='label alignment (paths)')
+    rep.add('G1', fi.site(dc), 'each side is fed by its own options: queries from --qs or the query files, references from --rs, the database under --use-db, or the reference files', not bad['side'],
+            expected='qs | q, ql, qdir  /  rs | use_db | r, rl, rdir', found=bad['side'][:2] or 'ok', stmt='side sources (paths)')
+    rep.add('G2', fi.site(dc), 'square mode writes the all-pairs matrix of the queries, otherwise queries x references', not bad['mode'] and not bad['out'], expected='pairwise under square, matrix otherwise, written to the output option',
+            found=(bad['mode'] + bad['out'])[:2] or 'ok', stmt='mode (paths)')
+    rep.add('G3', fi.site(dc), 'signatures computed from files are computed from the files of their own side, in file order', not bad['files'], expected='query files for the rows, reference files for the columns',
+            found=bad['files'][:2] or 'ok', stmt='computed side (paths)')
+    fn = fi.node
+    pcs = [c for c in calls_in(fn) if m.resolve_call(fi, c) == 'gambit.metric.jaccarddist_pairwise']
+    mcs = [c for c in calls_in(fn) if m.resolve_call(fi, c) == 'gambit.metric.jaccarddist_matrix']
+    rep.add('G2', fi.site(pcs[0] if pcs else dc), 'the all-pairs matrix is full (non-flat) and the reference matrix unrestricted', all(get_kw(c, 'flat') is None and len(c.args) == 1 for c in pcs) and all(get_kw(c, 'ref_indices') is None for c in mcs),
+            expected='no flat= / ref_indices=', found=[u(c)[:60] for c in pcs + mcs], stmt='matrix options (paths)')
+
 def check(ctx):
     rep, m = ctx.rep, ctx.model
     rep.rule('G1', 'each *_ids is assigned in the same branch as, and derived from, its source; square sets ref_ids = query_ids')
@@ -189,226 +256,241 @@ def check(ctx):
     dc = dumps[0]
     out_a, dmat_a, rows_a, cols_a = (get_arg(dc, i, n) for i, n in enumerate(['file', 'dmat', 'row_ids', 'col_ids']))
     rep.require(all(isinstance(a, ast.AST) for a in (out_a, dmat_a, rows_a, cols_a)), 'dist_cmd: dump_dmat_csv is not called with explicit file / matrix / row ids / column ids')
-    mats = [c for c in calls_in(fn) if m.resolve_call(fi, c) == 'gambit.metric.jaccarddist_matrix']
-    pairs = [c for c in calls_in(fn) if m.resolve_call(fi, c) == 'gambit.metric.jaccarddist_pairwise']
-    rep.require(len(mats) == 1 and len(pairs) == 1, 'dist_cmd: expected one matrix and one pairwise call')
-    mc, pc = mats[0], pairs[0]
 
-    def origins(e, at, guards, depth=0):
-        """[(expression, statement, guards)]: every value that can reach `e` evaluated at statement `at`, through plain copies (all definitions
-        when there are several, each under its own path condition) and through the arms of conditional expressions (each under its test)."""
-        if isinstance(e, ast.IfExp):
-            return origins(e.body, at, guards + ((e.test, True),), depth) + origins(e.orelse, at, guards + ((e.test, False),), depth)
-        if isinstance(e, ast.Name) and depth < 6:
-            d_ = reaching_def(fn, e.id, at)
-            if d_ is AMBIGUOUS:
-                out = []
-                for x in assigns_to(fn, e.id):
-                    v_ = def_value(x)
-                    out += origins(v_, x, tuple(gm[x]), depth + 1) if v_ is not None else [(e, x, tuple(gm[x]))]
-                return out
-            v_ = def_value(d_) if d_ not in (None, PARAM) else None
-            if v_ is not None:
-                return origins(v_, d_, tuple(gm[d_]), depth + 1)
-        return [(e, at, guards)]
-    dst = next((s_ for s_ in stmts_in(fn.body) if any(x is dc for x in ast.walk(s_)) and not isinstance(s_, (ast.If, ast.For, ast.While, ast.With, ast.Try))), None)
-    rep.require(dst is not None, 'dist_cmd: cannot locate the statement of the dump_dmat_csv call')
-    written = origins(dmat_a, dst, tuple(gm[dst]))
-    rep.require(len(mc.args) >= 2 and len(pc.args) >= 1, 'dist_cmd: matrix / pairwise operands are not positional')
-    q_sigs, r_sigs = u(mc.args[0]), u(mc.args[1])
-    rep.add('G2', fi.site(dc), 'the written matrix is the one just computed (either mode)', len(written) == 2 and {id(w[0]) for w in written} == {id(mc), id(pc)}, expected='the result of jaccarddist_matrix / jaccarddist_pairwise, unchanged',
-            found=[u(w[0])[:60] for w in written], stmt='matrix variable')
-    mw = next((w for w in written if w[0] is mc), None)
-    pw_ = next((w for w in written if w[0] is pc), None)
-    rep.require(mw is not None and pw_ is not None, f'dist_cmd: the matrix written is not the plain result of the matrix / pairwise call ({[u(w[0])[:50] for w in written]})')
-    mst, pst = mw[1], pw_[1]
-    atm, atp = path_atoms(mw[2]), path_atoms(pw_[2])
-    rep.add('G2', fi.site(pst), 'square mode computes all pairs of the queries, as a full (non-flat) matrix', ('true', 'square') in atp and u(pc.args[0]) == q_sigs and get_kw(pc, 'flat') is None and len(pc.args) == 1,
-            expected=f'jaccarddist_pairwise({q_sigs}) under square', found=(u(pc)[:60], sorted(atp)), stmt='square mode')
-    # which signature-file option each matrix operand is loaded from (directly, through a copy, or through a loading helper whose
-    # first argument is the option)
-    def load_options(name, depth=0):
-        out = set()
-        for d_ in assigns_to(fn, name):
-            v_ = def_value(d_)
-            if isinstance(v_, ast.Name) and depth < 4:
-                out |= load_options(v_.id, depth + 1)
-            elif isinstance(v_, ast.Call) and v_.args and ((m.resolve_call(fi, v_) or '').endswith('load_signatures') or (depth == 0 and u(v_.args[0]) in ('qs', 'rs'))):
-                out.add(u(v_.args[0]))
-        return out
-    loads = {v_: sorted(load_options(v_)) for v_ in (q_sigs, r_sigs)}
-    rep.require(loads[q_sigs] and loads[r_sigs], 'dist_cmd: cannot find where the signature-file options are loaded')
-    rep.add('G2', fi.site(mst), 'otherwise rows are the queries and columns the references', ('false', 'square') in atm and loads[q_sigs] == ['qs'] and loads[r_sigs] == ['rs'] and get_kw(mc, 'ref_indices') is None,
-            expected='jaccarddist_matrix(<signatures of --qs / query files>, <signatures of --rs / --use-db / reference files>) under not square', found=(u(mc)[:60], sorted(atm), loads), stmt='matrix mode')
-    q_ids, r_ids = u(rows_a), u(cols_a)
+    def structural():
+        """G1-G3 stated over the parallel locals of dist_cmd (<side>_ids / _files / _sigs): definitions, guards and copies."""
+        mats = [c for c in calls_in(fn) if m.resolve_call(fi, c) == 'gambit.metric.jaccarddist_matrix']
+        pairs = [c for c in calls_in(fn) if m.resolve_call(fi, c) == 'gambit.metric.jaccarddist_pairwise']
+        rep.require(len(mats) == 1 and len(pairs) == 1, 'dist_cmd: expected one matrix and one pairwise call')
+        mc, pc = mats[0], pairs[0]
 
-    def label_sides(var):
-        """Which side(s) the definitions of a label variable are read from: the stored ids of a matrix operand, or the file ids of a
-        get_sequence_files call on one side's options."""
-        out = set()
-        for d_ in assigns_to(fn, var):
-            v_ = d_.value if isinstance(d_, ast.Assign) else None
-            if isinstance(v_, ast.Attribute) and v_.attr == 'ids' and u(v_.value) in (q_sigs, r_sigs):
-                out.add('query' if u(v_.value) == q_sigs else 'ref')
-            elif isinstance(v_, ast.Call) and m.resolve_call(fi, v_) == 'gambit.cli.common.get_sequence_files':
-                a_ = [u(x) for x in v_.args]
-                out.add('query' if a_ == ['q', 'ql', 'qdir'] else 'ref' if a_ == ['r', 'rl', 'rdir'] else f'files({", ".join(a_)})')
-        return out
-    rows_from, cols_from = label_sides(q_ids), label_sides(r_ids)
-    rep.add('G2', fi.site(dc), 'row labels are the query ids and column labels the reference ids (same orientation as the matrix operands)',
-            q_ids != r_ids and 'query' in rows_from and 'ref' not in rows_from and 'ref' in cols_from and 'query' not in cols_from and u(out_a) == 'output',
-            expected='dump_dmat_csv(output, dmat, <ids of the first operand>, <ids of the second operand>)', found=(u(dc), dict(rows=sorted(rows_from), cols=sorted(cols_from))), stmt='label orientation')
-    # ---- G1: per side, ids and sigs/files defined together in each branch
-    def files_var(ids):
-        for s_ in stmts_in(fn.body):
-            if isinstance(s_, ast.Assign) and isinstance(s_.targets[0], ast.Tuple) and len(s_.targets[0].elts) == 2 and u(s_.targets[0].elts[0]) == ids:
-                return u(s_.targets[0].elts[1])
-        return f'{ids}:files?'
-    sides = {'query': (q_ids, q_sigs, files_var(q_ids)), 'ref': (r_ids, r_sigs, files_var(r_ids))}
-
-    def kspec_kinds(e, depth=0):
-        """Where a k-mer parameter expression comes from, over every definition of the names involved: the explicit options
-        (kspec_from_params), a pre-computed source of this command (<sigs>.kmerspec), the default, or something else."""
-        if isinstance(e, ast.IfExp):
-            return kspec_kinds(e.body, depth) | kspec_kinds(e.orelse, depth)
-        if isinstance(e, ast.Call) and (m.resolve_call(fi, e) or '').endswith('kspec_from_params'):
-            return {'options'}
-        if m.resolve(fi.module, e) == 'gambit.kmers.DEFAULT_KMERSPEC':
-            return {'default'}
-        if isinstance(e, ast.Attribute) and e.attr == 'kmerspec' and u(e.value) in (q_sigs, r_sigs):
-            return {'source'}
-        if isinstance(e, ast.Name) and depth < 6:
-            defs = assigns_to(fn, e.id)
+        def origins(e, at, guards, depth=0):
+            """[(expression, statement, guards)]: every value that can reach `e` evaluated at statement `at`, through plain copies (all definitions
+            when there are several, each under its own path condition) and through the arms of conditional expressions (each under its test)."""
+            if isinstance(e, ast.IfExp):
+                return origins(e.body, at, guards + ((e.test, True),), depth) + origins(e.orelse, at, guards + ((e.test, False),), depth)
+            if isinstance(e, ast.Name) and depth < 6:
+                d_ = reaching_def(fn, e.id, at)
+                if d_ is AMBIGUOUS:
+                    out = []
+                    for x in assigns_to(fn, e.id):
+                        v_ = def_value(x)
+                        out += origins(v_, x, tuple(gm[x]), depth + 1) if v_ is not None else [(e, x, tuple(gm[x]))]
+                    return out
+                v_ = def_value(d_) if d_ not in (None, PARAM) else None
+                if v_ is not None:
+                    return origins(v_, d_, tuple(gm[d_]), depth + 1)
+            return [(e, at, guards)]
+        dst = next((s_ for s_ in stmts_in(fn.body) if any(x is dc for x in ast.walk(s_)) and not isinstance(s_, (ast.If, ast.For, ast.While, ast.With, ast.Try))), None)
+        rep.require(dst is not None, 'dist_cmd: cannot locate the statement of the dump_dmat_csv call')
+        written = origins(dmat_a, dst, tuple(gm[dst]))
+        rep.require(len(mc.args) >= 2 and len(pc.args) >= 1, 'dist_cmd: matrix / pairwise operands are not positional')
+        q_sigs, r_sigs = u(mc.args[0]), u(mc.args[1])
+        rep.add('G2', fi.site(dc), 'the written matrix is the one just computed (either mode)', len(written) == 2 and {id(w[0]) for w in written} == {id(mc), id(pc)}, expected='the result of jaccarddist_matrix / jaccarddist_pairwise, unchanged',
+                found=[u(w[0])[:60] for w in written], stmt='matrix variable')
+        mw = next((w for w in written if w[0] is mc), None)
+        pw_ = next((w for w in written if w[0] is pc), None)
+        rep.require(mw is not None and pw_ is not None, f'dist_cmd: the matrix written is not the plain result of the matrix / pairwise call ({[u(w[0])[:50] for w in written]})')
+        mst, pst = mw[1], pw_[1]
+        atm, atp = path_atoms(mw[2]), path_atoms(pw_[2])
+        rep.add('G2', fi.site(pst), 'square mode computes all pairs of the queries, as a full (non-flat) matrix', ('true', 'square') in atp and u(pc.args[0]) == q_sigs and get_kw(pc, 'flat') is None and len(pc.args) == 1,
+                expected=f'jaccarddist_pairwise({q_sigs}) under square', found=(u(pc)[:60], sorted(atp)), stmt='square mode')
+        # which signature-file option each matrix operand is loaded from (directly, through a copy, or through a loading helper whose
+        # first argument is the option)
+        def load_options(name, depth=0):
             out = set()
-            for d_ in defs:
+            for d_ in assigns_to(fn, name):
                 v_ = def_value(d_)
-                out |= kspec_kinds(v_, depth + 1) if v_ is not None else {f'other: {u(d_)[:60]}'}
-            return out or {f'other: {e.id} (never assigned)'}
-        return {f'other: {u(e)[:60]}'}
-    nbranches = 0
-    for side, (ids, sigs, files) in sides.items():
-        id_defs = [s for s in stmts_in(fn.body) if isinstance(s, ast.Assign) and any(ids in [u(e) for e in (t.elts if isinstance(t, ast.Tuple) else [t])] for t in s.targets)]
-        for s in id_defs:
-            nbranches += 1
-            blk = block_path(fn, s)[-1][0]
-            tgt = s.targets[0]
-            if isinstance(tgt, ast.Tuple):
-                # ids, files = get_sequence_files(a, b, c)
-                okc = isinstance(s.value, ast.Call) and m.resolve_call(fi, s.value) == 'gambit.cli.common.get_sequence_files' and [u(e) for e in tgt.elts] == [ids, files]
-                args = [u(a) for a in s.value.args] if isinstance(s.value, ast.Call) else []
-                want = ['q', 'ql', 'qdir'] if side == 'query' else ['r', 'rl', 'rdir']
-                sig_none = any(isinstance(x, ast.Assign) and any(u(t) == sigs for t in x.targets) and is_none(x.value) for x in blk) or none_guarded_rebinding(fn, None, s, sigs)
-                rep.add('G1', fi.site(s), f'{side} side from files: ids and files are the aligned pair of one get_sequence_files call on this side\'s options; no pre-computed signatures', okc and args == want and sig_none,
-                        expected=f'{ids}, {files} = get_sequence_files({", ".join(want)}); {sigs} = None', found=(u(s), sig_none), stmt=f'{side} files branch')
-            elif u(s.value) == f'{sigs}.ids':
-                # the labels are read off the object `sigs` names at this point: they stay index-aligned with the matrix operand iff `sigs`
-                # is bound here and still names that object at the sink (a later rebinding under `sigs is None` cannot execute: .ids was read)
-                before = reaching_def(fn, sigs, s)
-                rebound = [x for x in assigns_to(fn, sigs) if comes_after(fn, s, x) and not none_guarded_rebinding(fn, s, x, sigs)]
-                srcs = [x for x in assigns_to(fn, sigs) if comes_after(fn, x, s) and def_value(x) is not None and not is_none(def_value(x))]
-                rep.add('G1', fi.site(s), f'{side} side from signatures: ids are the stored ids of the very object that is this side\'s matrix operand', before not in (None, PARAM) and not rebound,
-                        expected=f'{sigs} = <source>; {ids} = {sigs}.ids; {sigs} not rebound afterwards', found=dict(bound_before=u(before) if isinstance(before, ast.AST) else before, rebound_after=[u(x) for x in rebound]),
-                        stmt=f'{side} sigs branch @{" | ".join(sorted(u(x.value)[:30] for x in srcs)) or "?"}')
-            elif side == 'ref' and u(s.value) == q_ids:
-                at = path_atoms(gm[s])
-                rep.add('G1', fi.site(s), 'square mode labels the columns with the query ids', ('true', 'square') in at, expected='ref_ids = query_ids under square', found=sorted(at), stmt='square ids')
-            else:
-                rep.add('G1', fi.site(s), f'{side} ids come from this side\'s own source', False, expected=f'{sigs}.ids | get_sequence_files | query_ids (square)', found=u(s), stmt=f'{side} ids other')
-    rep.floor('G1', 'id-assignment branches', nbranches, 5)
-    rep.add('G1', fi.site(), 'each side loads its own signature file option', loads.get(q_sigs) == ['qs'] and loads.get(r_sigs) == ['rs'], expected={q_sigs: ['qs'], r_sigs: ['rs']}, found=loads, stmt='signature file options')
-    ctx_aliases = {'ctx.obj'} | {u(x.targets[0]) for x in stmts_in(fn.body) if isinstance(x, ast.Assign) and u(x.value) == 'ctx.obj'}
+                if isinstance(v_, ast.Name) and depth < 4:
+                    out |= load_options(v_.id, depth + 1)
+                elif isinstance(v_, ast.Call) and v_.args and ((m.resolve_call(fi, v_) or '').endswith('load_signatures') or (depth == 0 and u(v_.args[0]) in ('qs', 'rs'))):
+                    out.add(u(v_.args[0]))
+            return out
+        loads = {v_: sorted(load_options(v_)) for v_ in (q_sigs, r_sigs)}
+        rep.require(loads[q_sigs] and loads[r_sigs], 'dist_cmd: cannot find where the signature-file options are loaded')
+        rep.add('G2', fi.site(mst), 'otherwise rows are the queries and columns the references', ('false', 'square') in atm and loads[q_sigs] == ['qs'] and loads[r_sigs] == ['rs'] and get_kw(mc, 'ref_indices') is None,
+                expected='jaccarddist_matrix(<signatures of --qs / query files>, <signatures of --rs / --use-db / reference files>) under not square', found=(u(mc)[:60], sorted(atm), loads), stmt='matrix mode')
+        q_ids, r_ids = u(rows_a), u(cols_a)
 
-    def is_db_signatures(v_):
-        """<ctx.obj or an alias>.signatures, or a method of the CLI context object every return of which is `self.signatures`."""
-        if u(v_) in {f'{a}.signatures' for a in ctx_aliases}:
-            return True
-        if isinstance(v_, ast.Call) and isinstance(v_.func, ast.Attribute) and u(v_.func.value) in ctx_aliases and not v_.args and not v_.keywords:
-            mi = m.find_method('gambit.cli.common.CLIContext', v_.func.attr)
-            if mi is not None and not any(isinstance(d_, ast.Name) and d_.id == 'property' for d_ in mi.decorators) and mi.params():
-                rets = [x for x in stmts_in(mi.node.body) if isinstance(x, ast.Return)]
-                return bool(rets) and all(u(x.value) == f'{mi.params()[0]}.signatures' for x in rets)
-        return False
-    dbs = [s for s in stmts_in(fn.body) if isinstance(s, ast.Assign) and u(s.targets[0]) == r_sigs and is_db_signatures(s.value)]
-    # the guard may be reached by elimination (`if rs is not None or use_db:` ... `if rs is None:`); the tested options are never rebound
-    db_at = implied_atoms(gm[dbs[0]]) if len(dbs) == 1 else set()
-    stale = [n for t, _ in (gm[dbs[0]] if len(dbs) == 1 else ()) for n in sorted({x.id for x in ast.walk(t) if isinstance(x, ast.Name)}) if n != r_sigs and assigns_to(fn, n)]
-    rep.add('G1', fi.site(dbs[0] if dbs else None), "--use-db takes the database's signatures as references", len(dbs) == 1 and ('true', 'use_db') in db_at and not stale, expected='ref_sigs = ctx.obj.signatures under use_db',
-            found=([u(x) for x in dbs], sorted(db_at), stale), stmt='use_db source')
-    # ---- G3: computed signatures
-    def helper_summary(hq):
-        """(kspec parameter, files parameter) of a package helper that returns calc_file_signatures(<its kspec parameter>, <files aligned
-        with its files parameter>) on every path - a "calculate signatures from files" stanza moved into a function; else None."""
-        hf = m.functions.get(hq)
-        if hf is None or hf.cls is not None or not hq.startswith('gambit.cli.'):
-            return None
-        cc = [c for c in calls_in(hf.node) if (m.resolve_call(hf, c) or '').endswith('calc_file_signatures')]
-        rets = [x for x in stmts_in(hf.node.body) if isinstance(x, ast.Return)]
-        if len(cc) != 1 or not rets or len(cc[0].args) < 2 or any(isinstance(a, ast.Starred) for a in cc[0].args[:2]):
-            return None
-        for r_ in rets:
-            v_ = r_.value
-            if isinstance(v_, ast.Name):
-                d_ = reaching_def(hf.node, v_.id, r_)
-                v_ = def_value(d_) if d_ not in (None, PARAM, AMBIGUOUS) else None
-            if v_ is not cc[0]:
+        def label_sides(var):
+            """Which side(s) the definitions of a label variable are read from: the stored ids of a matrix operand, or the file ids of a
+            get_sequence_files call on one side's options."""
+            out = set()
+            for d_ in assigns_to(fn, var):
+                v_ = d_.value if isinstance(d_, ast.Assign) else None
+                if isinstance(v_, ast.Attribute) and v_.attr == 'ids' and u(v_.value) in (q_sigs, r_sigs):
+                    out.add('query' if u(v_.value) == q_sigs else 'ref')
+                elif isinstance(v_, ast.Call) and m.resolve_call(fi, v_) == 'gambit.cli.common.get_sequence_files':
+                    a_ = [u(x) for x in v_.args]
+                    out.add('query' if a_ == ['q', 'ql', 'qdir'] else 'ref' if a_ == ['r', 'rl', 'rdir'] else f'files({", ".join(a_)})')
+            return out
+        rows_from, cols_from = label_sides(q_ids), label_sides(r_ids)
+        rep.add('G2', fi.site(dc), 'row labels are the query ids and column labels the reference ids (same orientation as the matrix operands)',
+                q_ids != r_ids and 'query' in rows_from and 'ref' not in rows_from and 'ref' in cols_from and 'query' not in cols_from and u(out_a) == 'output',
+                expected='dump_dmat_csv(output, dmat, <ids of the first operand>, <ids of the second operand>)', found=(u(dc), dict(rows=sorted(rows_from), cols=sorted(cols_from))), stmt='label orientation')
+        # ---- G1: per side, ids and sigs/files defined together in each branch
+        def files_var(ids):
+            for s_ in stmts_in(fn.body):
+                if isinstance(s_, ast.Assign) and isinstance(s_.targets[0], ast.Tuple) and len(s_.targets[0].elts) == 2 and u(s_.targets[0].elts[0]) == ids:
+                    return u(s_.targets[0].elts[1])
+            return f'{ids}:files?'
+        sides = {'query': (q_ids, q_sigs, files_var(q_ids)), 'ref': (r_ids, r_sigs, files_var(r_ids))}
+
+        def kspec_kinds(e, depth=0):
+            """Where a k-mer parameter expression comes from, over every definition of the names involved: the explicit options
+            (kspec_from_params), a pre-computed source of this command (<sigs>.kmerspec), the default, or something else."""
+            if isinstance(e, ast.IfExp):
+                return kspec_kinds(e.body, depth) | kspec_kinds(e.orelse, depth)
+            if isinstance(e, ast.Call) and (m.resolve_call(fi, e) or '').endswith('kspec_from_params'):
+                return {'options'}
+            if m.resolve(fi.module, e) == 'gambit.kmers.DEFAULT_KMERSPEC':
+                return {'default'}
+            if isinstance(e, ast.Attribute) and e.attr == 'kmerspec' and u(e.value) in (q_sigs, r_sigs):
+                return {'source'}
+            if isinstance(e, ast.Name) and depth < 6:
+                defs = assigns_to(fn, e.id)
+                out = set()
+                for d_ in defs:
+                    v_ = def_value(d_)
+                    out |= kspec_kinds(v_, depth + 1) if v_ is not None else {f'other: {u(d_)[:60]}'}
+                return out or {f'other: {e.id} (never assigned)'}
+            return {f'other: {u(e)[:60]}'}
+        nbranches = 0
+        for side, (ids, sigs, files) in sides.items():
+            id_defs = [s for s in stmts_in(fn.body) if isinstance(s, ast.Assign) and any(ids in [u(e) for e in (t.elts if isinstance(t, ast.Tuple) else [t])] for t in s.targets)]
+            for s in id_defs:
+                nbranches += 1
+                blk = block_path(fn, s)[-1][0]
+                tgt = s.targets[0]
+                if isinstance(tgt, ast.Tuple):
+                    # ids, files = get_sequence_files(a, b, c)
+                    okc = isinstance(s.value, ast.Call) and m.resolve_call(fi, s.value) == 'gambit.cli.common.get_sequence_files' and [u(e) for e in tgt.elts] == [ids, files]
+                    args = [u(a) for a in s.value.args] if isinstance(s.value, ast.Call) else []
+                    want = ['q', 'ql', 'qdir'] if side == 'query' else ['r', 'rl', 'rdir']
+                    sig_none = any(isinstance(x, ast.Assign) and any(u(t) == sigs for t in x.targets) and is_none(x.value) for x in blk) or none_guarded_rebinding(fn, None, s, sigs)
+                    rep.add('G1', fi.site(s), f'{side} side from files: ids and files are the aligned pair of one get_sequence_files call on this side\'s options; no pre-computed signatures', okc and args == want and sig_none,
+                            expected=f'{ids}, {files} = get_sequence_files({", ".join(want)}); {sigs} = None', found=(u(s), sig_none), stmt=f'{side} files branch')
+                elif u(s.value) == f'{sigs}.ids':
+                    # the labels are read off the object `sigs` names at this point: they stay index-aligned with the matrix operand iff `sigs`
+                    # is bound here and still names that object at the sink (a later rebinding under `sigs is None` cannot execute: .ids was read)
+                    before = reaching_def(fn, sigs, s)
+                    rebound = [x for x in assigns_to(fn, sigs) if comes_after(fn, s, x) and not none_guarded_rebinding(fn, s, x, sigs)]
+                    srcs = [x for x in assigns_to(fn, sigs) if comes_after(fn, x, s) and def_value(x) is not None and not is_none(def_value(x))]
+                    rep.add('G1', fi.site(s), f'{side} side from signatures: ids are the stored ids of the very object that is this side\'s matrix operand', before not in (None, PARAM) and not rebound,
+                            expected=f'{sigs} = <source>; {ids} = {sigs}.ids; {sigs} not rebound afterwards', found=dict(bound_before=u(before) if isinstance(before, ast.AST) else before, rebound_after=[u(x) for x in rebound]),
+                            stmt=f'{side} sigs branch @{" | ".join(sorted(u(x.value)[:30] for x in srcs)) or "?"}')
+                elif side == 'ref' and u(s.value) == q_ids:
+                    at = path_atoms(gm[s])
+                    rep.add('G1', fi.site(s), 'square mode labels the columns with the query ids', ('true', 'square') in at, expected='ref_ids = query_ids under square', found=sorted(at), stmt='square ids')
+                else:
+                    rep.add('G1', fi.site(s), f'{side} ids come from this side\'s own source', False, expected=f'{sigs}.ids | get_sequence_files | query_ids (square)', found=u(s), stmt=f'{side} ids other')
+        rep.floor('G1', 'id-assignment branches', nbranches, 5)
+        rep.add('G1', fi.site(), 'each side loads its own signature file option', loads.get(q_sigs) == ['qs'] and loads.get(r_sigs) == ['rs'], expected={q_sigs: ['qs'], r_sigs: ['rs']}, found=loads, stmt='signature file options')
+        ctx_aliases = {'ctx.obj'} | {u(x.targets[0]) for x in stmts_in(fn.body) if isinstance(x, ast.Assign) and u(x.value) == 'ctx.obj'}
+
+        def is_db_signatures(v_):
+            """<ctx.obj or an alias>.signatures, or a method of the CLI context object every return of which is `self.signatures`."""
+            if u(v_) in {f'{a}.signatures' for a in ctx_aliases}:
+                return True
+            if isinstance(v_, ast.Call) and isinstance(v_.func, ast.Attribute) and u(v_.func.value) in ctx_aliases and not v_.args and not v_.keywords:
+                mi = m.find_method('gambit.cli.common.CLIContext', v_.func.attr)
+                if mi is not None and not any(isinstance(d_, ast.Name) and d_.id == 'property' for d_ in mi.decorators) and mi.params():
+                    rets = [x for x in stmts_in(mi.node.body) if isinstance(x, ast.Return)]
+                    return bool(rets) and all(u(x.value) == f'{mi.params()[0]}.signatures' for x in rets)
+            return False
+        dbs = [s for s in stmts_in(fn.body) if isinstance(s, ast.Assign) and u(s.targets[0]) == r_sigs and is_db_signatures(s.value)]
+        # the guard may be reached by elimination (`if rs is not None or use_db:` ... `if rs is None:`); the tested options are never rebound
+        db_at = implied_atoms(gm[dbs[0]]) if len(dbs) == 1 else set()
+        stale = [n for t, _ in (gm[dbs[0]] if len(dbs) == 1 else ()) for n in sorted({x.id for x in ast.walk(t) if isinstance(x, ast.Name)}) if n != r_sigs and assigns_to(fn, n)]
+        rep.add('G1', fi.site(dbs[0] if dbs else None), "--use-db takes the database's signatures as references", len(dbs) == 1 and ('true', 'use_db') in db_at and not stale, expected='ref_sigs = ctx.obj.signatures under use_db',
+                found=([u(x) for x in dbs], sorted(db_at), stale), stmt='use_db source')
+        # ---- G3: computed signatures
+        def helper_summary(hq):
+            """(kspec parameter, files parameter) of a package helper that returns calc_file_signatures(<its kspec parameter>, <files aligned
+            with its files parameter>) on every path - a "calculate signatures from files" stanza moved into a function; else None."""
+            hf = m.functions.get(hq)
+            if hf is None or hf.cls is not None or not hq.startswith('gambit.cli.'):
                 return None
-        cst = next(x for x in stmts_in(hf.node.body) if any(y is cc[0] for y in ast.walk(x)) and not isinstance(x, (ast.If, ast.For, ast.While, ast.With, ast.Try)))
-        ka = cc[0].args[0]
-        if not (isinstance(ka, ast.Name) and reaching_def(hf.node, ka.id, cst) is PARAM and not assigns_to(hf.node, ka.id)):
-            return None
-        froot = align.source(m, hf, cc[0].args[1], cst)[0]
-        if froot not in hf.params() or assigns_to(hf.node, froot):
-            return None
-        return ka.id, froot
+            cc = [c for c in calls_in(hf.node) if (m.resolve_call(hf, c) or '').endswith('calc_file_signatures')]
+            rets = [x for x in stmts_in(hf.node.body) if isinstance(x, ast.Return)]
+            if len(cc) != 1 or not rets or len(cc[0].args) < 2 or any(isinstance(a, ast.Starred) for a in cc[0].args[:2]):
+                return None
+            for r_ in rets:
+                v_ = r_.value
+                if isinstance(v_, ast.Name):
+                    d_ = reaching_def(hf.node, v_.id, r_)
+                    v_ = def_value(d_) if d_ not in (None, PARAM, AMBIGUOUS) else None
+                if v_ is not cc[0]:
+                    return None
+            cst = next(x for x in stmts_in(hf.node.body) if any(y is cc[0] for y in ast.walk(x)) and not isinstance(x, (ast.If, ast.For, ast.While, ast.With, ast.Try)))
+            ka = cc[0].args[0]
+            if not (isinstance(ka, ast.Name) and reaching_def(hf.node, ka.id, cst) is PARAM and not assigns_to(hf.node, ka.id)):
+                return None
+            froot = align.source(m, hf, cc[0].args[1], cst)[0]
+            if froot not in hf.params() or assigns_to(hf.node, froot):
+                return None
+            return ka.id, froot
 
-    def calc_site(s_):
-        """(parameter expression, files expression) when this assignment computes signatures from files: a calc_file_signatures call, or a
-        call of a helper summarised as one."""
-        if not (isinstance(s_, ast.Assign) and isinstance(s_.value, ast.Call)):
-            return None
-        c_ = s_.value
-        q_ = m.resolve_call(fi, c_) or ''
-        if q_.endswith('calc_file_signatures'):
-            return get_arg(c_, 0, 'kmerspec'), get_arg(c_, 1, 'files')
-        hs = helper_summary(q_)
-        if hs is None or any(isinstance(a, ast.Starred) for a in c_.args) or any(k.arg is None for k in c_.keywords):
-            return None
-        names = m.functions[q_].params()
-        return tuple(get_arg(c_, names.index(n_), n_) for n_ in hs)
-    calcs = [s for s in stmts_in(fn.body) if calc_site(s) is not None]
-    rep.floor('G3', 'calc_file_signatures sites in dist_cmd', len(calcs), 2)
-    kargs = set()
-    for s in calcs:
-        karg, farg = calc_site(s)
-        rep.require(isinstance(karg, ast.AST) and isinstance(farg, ast.AST), f'dist_cmd: cannot tell the parameter / files arguments of {u(s.value)[:60]}')
-        side = 'query' if u(s.targets[0]) == q_sigs else 'ref' if u(s.targets[0]) == r_sigs else None
-        rep.require(side is not None, f'dist_cmd: computed signatures assigned to {u(s.targets[0])}')
-        ids, sigs, files = sides[side]
-        root = align.source(m, fi, farg, s)[0]
-        if root.startswith('?'):
-            # the files variable is None in the pre-computed branches (G1) and bound by get_sequence_files in the files
-            # branch; under `<sigs> is None` only that definition is live: use the unique non-None definition
-            nm = root[1:]
-            nn = [x for x in stmts_in(fn.body) if isinstance(x, ast.Assign) and any(nm in [u(e) for e in (t.elts if isinstance(t, (ast.Tuple, ast.List)) else [t])] for t in x.targets)
-                  and not is_none(x.value)]
-            if len(nn) == 1 and isinstance(nn[0].value, ast.Call) and m.resolve_call(fi, nn[0].value) == 'gambit.cli.common.get_sequence_files':
-                root = f'gambit.cli.common.get_sequence_files({", ".join(u(a) for a in nn[0].value.args)})@{nn[0].lineno}'
-        at = path_atoms(gm[s])
-        # "the reconciled parameters": one variable for both sides, every definition of which is the explicit options, the parameters of a
-        # pre-computed source or the default (that the choice among them is the right one on every option path is P1/P2 below)
-        kinds = kspec_kinds(karg)
-        unknown = sorted(k_ for k_ in kinds if k_.startswith('other'))
-        rep.require(not unknown or 'options' not in kinds, f'dist_cmd: k-mer parameters of the computed {side} signatures have a definition outside the vocabulary ({unknown[0] if unknown else ""})')
-        kargs.add(u(karg))
-        rep.add('G3', fi.site(s), f'{side} signatures are computed from this side\'s files (in file order), only when not pre-computed, with the reconciled parameters',
-                root.startswith('gambit.cli.common.get_sequence_files(') and ('is', 'None', sigs) in at and 'options' in kinds and not unknown and len(kargs) == 1,
-                expected=f'{sigs} = calc_file_signatures(kspec, <{files}>) under {sigs} is None', found=(root, sorted(at), u(karg), sorted(kinds)), stmt=f'{side} computed')
-        idd = [x for x in stmts_in(fn.body) if isinstance(x, ast.Assign) and isinstance(x.targets[0], ast.Tuple) and ids in [u(e) for e in x.targets[0].elts]]
-        same = idd and root == f'gambit.cli.common.get_sequence_files({", ".join(u(a) for a in idd[0].value.args)})@{idd[0].lineno}'
-        rep.add('G3', fi.site(s), f'{side} labels and {side} signatures descend from the same get_sequence_files call', bool(same), expected='same call', found=root, stmt=f'{side} label/signature alignment')
-    # no reassignments of ids after sources fixed
-    late = [s for s in stmts_in(fn.body) if isinstance(s, ast.Assign) and any(u(t) in (q_ids, r_ids) for t in s.targets) and s.lineno > min(c.lineno for c in calcs)]
-    rep.add('G1', fi.site(late[0] if late else None), 'labels are not rebound after the sources are chosen', not late, expected='none', found=[u(s) for s in late], stmt='late id rebinding')
+        def calc_site(s_):
+            """(parameter expression, files expression) when this assignment computes signatures from files: a calc_file_signatures call, or a
+            call of a helper summarised as one."""
+            if not (isinstance(s_, ast.Assign) and isinstance(s_.value, ast.Call)):
+                return None
+            c_ = s_.value
+            q_ = m.resolve_call(fi, c_) or ''
+            if q_.endswith('calc_file_signatures'):
+                return get_arg(c_, 0, 'kmerspec'), get_arg(c_, 1, 'files')
+            hs = helper_summary(q_)
+            if hs is None or any(isinstance(a, ast.Starred) for a in c_.args) or any(k.arg is None for k in c_.keywords):
+                return None
+            names = m.functions[q_].params()
+            return tuple(get_arg(c_, names.index(n_), n_) for n_ in hs)
+        calcs = [s for s in stmts_in(fn.body) if calc_site(s) is not None]
+        rep.floor('G3', 'calc_file_signatures sites in dist_cmd', len(calcs), 2)
+        kargs = set()
+        for s in calcs:
+            karg, farg = calc_site(s)
+            rep.require(isinstance(karg, ast.AST) and isinstance(farg, ast.AST), f'dist_cmd: cannot tell the parameter / files arguments of {u(s.value)[:60]}')
+            side = 'query' if u(s.targets[0]) == q_sigs else 'ref' if u(s.targets[0]) == r_sigs else None
+            rep.require(side is not None, f'dist_cmd: computed signatures assigned to {u(s.targets[0])}')
+            ids, sigs, files = sides[side]
+            root = align.source(m, fi, farg, s)[0]
+            if root.startswith('?'):
+                # the files variable is None in the pre-computed branches (G1) and bound by get_sequence_files in the files
+                # branch; under `<sigs> is None` only that definition is live: use the unique non-None definition
+                nm = root[1:]
+                nn = [x for x in stmts_in(fn.body) if isinstance(x, ast.Assign) and any(nm in [u(e) for e in (t.elts if isinstance(t, (ast.Tuple, ast.List)) else [t])] for t in x.targets)
+                      and not is_none(x.value)]
+                if len(nn) == 1 and isinstance(nn[0].value, ast.Call) and m.resolve_call(fi, nn[0].value) == 'gambit.cli.common.get_sequence_files':
+                    root = f'gambit.cli.common.get_sequence_files({", ".join(u(a) for a in nn[0].value.args)})@{nn[0].lineno}'
+            at = path_atoms(gm[s])
+            # "the reconciled parameters": one variable for both sides, every definition of which is the explicit options, the parameters of a
+            # pre-computed source or the default (that the choice among them is the right one on every option path is P1/P2 below)
+            kinds = kspec_kinds(karg)
+            unknown = sorted(k_ for k_ in kinds if k_.startswith('other'))
+            rep.require(not unknown or 'options' not in kinds, f'dist_cmd: k-mer parameters of the computed {side} signatures have a definition outside the vocabulary ({unknown[0] if unknown else ""})')
+            kargs.add(u(karg))
+            rep.add('G3', fi.site(s), f'{side} signatures are computed from this side\'s files (in file order), only when not pre-computed, with the reconciled parameters',
+                    root.startswith('gambit.cli.common.get_sequence_files(') and ('is', 'None', sigs) in at and 'options' in kinds and not unknown and len(kargs) == 1,
+                    expected=f'{sigs} = calc_file_signatures(kspec, <{files}>) under {sigs} is None', found=(root, sorted(at), u(karg), sorted(kinds)), stmt=f'{side} computed')
+            idd = [x for x in stmts_in(fn.body) if isinstance(x, ast.Assign) and isinstance(x.targets[0], ast.Tuple) and ids in [u(e) for e in x.targets[0].elts]]
+            same = idd and root == f'gambit.cli.common.get_sequence_files({", ".join(u(a) for a in idd[0].value.args)})@{idd[0].lineno}'
+            rep.add('G3', fi.site(s), f'{side} labels and {side} signatures descend from the same get_sequence_files call', bool(same), expected='same call', found=root, stmt=f'{side} label/signature alignment')
+        # no reassignments of ids after sources fixed
+        late = [s for s in stmts_in(fn.body) if isinstance(s, ast.Assign) and any(u(t) in (q_ids, r_ids) for t in s.targets) and s.lineno > min(c.lineno for c in calcs)]
+        rep.add('G1', fi.site(late[0] if late else None), 'labels are not rebound after the sources are chosen', not late, expected='none', found=[u(s) for s in late], stmt='late id rebinding')
+
+    mark = len(rep.obs)
+    try:
+        structural()
+    except Undecided as why:
+        # the rules over the parallel locals did not find their anchors (records instead of locals, values read by attribute ...).  Unless they
+        # already located a deviation, the same obligations are decided on the abstract paths of the command: what the labels and the matrix
+        # operands are index-aligned with at the moment they reach the writer, for every option combination
+        if any(not o.ok for o in rep.obs[mark:]):
+            raise
+        del rep.obs[mark:]
+        alignment_by_paths(ctx, fi, dc, str(why))
 
     # ---- G4 writer
     fw = m.func('gambit.cluster.dump_dmat_csv')
@@ -489,6 +571,23 @@ _REFSEL2 = ("\tif rs is not None:\n\t\tref_sigs = load_signatures(rs)\n\telif us
 _CM = 'src/gambit/cli/common.py'
 _GETDB = "\tdef get_database(self) -> ReferenceDatabase:\n"
 _GETSIG = "\tdef get_signatures(self):\n\t\tself.require_signatures()\n\t\treturn self.signatures\n\n"
+_IMP = "from typing import Optional, TextIO\n"
+_RECCLS = ("class SideInput(NamedTuple):\n\tids: list\n\tfiles: Optional[list]\n\tsigs: Optional[object]\n\n\t@classmethod\n\tdef from_signatures(cls, sigs):\n\t\treturn cls(sigs.ids, None, sigs)\n\n"
+           "\t@classmethod\n\tdef from_files(cls, explicit, listfile, listfile_dir):\n\t\tids, files = common.get_sequence_files(explicit, listfile, listfile_dir)\n\t\treturn cls(ids, files, None)\n\n\n")
+_QSEL = ("\tif qs is not None:\n\t\tquery_sigs = load_signatures(qs)\n\t\tquery_ids = query_sigs.ids\n\t\tquery_files = None\n\telse:\n\t\tquery_ids, query_files = common.get_sequence_files(q, ql, qdir)\n\t\tquery_sigs = None\n")
+_QREC = "\tif qs is not None:\n\t\tquery = SideInput.from_signatures(load_signatures(qs))\n\telse:\n\t\tquery = SideInput.from_files(q, ql, qdir)\n\tquery_ids, query_files, query_sigs = query\n"
+_RSEL = ("\tif rs is not None:\n\t\tref_sigs = load_signatures(rs)\n\t\tref_ids = ref_sigs.ids\n\t\tref_files = None\n\telif use_db:\n\t\tctxobj = ctx.obj  # type: common.CLIContext\n\t\tctxobj.require_signatures()\n\t\tref_sigs = ctxobj.signatures\n\t\tref_ids = ref_sigs.ids\n\t\tref_files = None\n"
+         "\telif square:\n\t\tref_ids = query_ids\n\t\tref_files = ref_sigs = None\n\telse:\n\t\tref_ids, ref_files = common.get_sequence_files(r, rl, rdir)\n\t\tref_sigs = None\n")
+_RREC = ("\tif rs is not None:\n\t\tref = SideInput.from_signatures(load_signatures(rs))\n\telif use_db:\n\t\tctxobj = ctx.obj\n\t\tctxobj.require_signatures()\n\t\tref = SideInput.from_signatures(ctxobj.signatures)\n"
+         "\telif square:\n\t\tref = SideInput(query.ids, None, None)\n\telse:\n\t\tref = SideInput.from_files(r, rl, rdir)\n\tref_ids, ref_files, ref_sigs = ref\n")
+_CMDDEC = "@cli.command(name='dist', no_args_is_help=True)\n"
+
+
+def _rec(qrec=_QREC, rrec=_RREC, cls=_RECCLS, extra=()):
+    """edits turning the six parallel locals of dist_cmd into one NamedTuple per side (first edit = (file, old, new) of the V itself)"""
+    return [(_D, _RSEL, rrec), (_D, _IMP, "from typing import Optional, TextIO, NamedTuple\n"), (_D, _CMDDEC, cls + _CMDDEC)] + list(extra)
+
+
 VARIANTS = [
     V('file options resolve symlinks (seeded C16c)', 'B', 'src/gambit/cli/common.py', "\tkw.setdefault('path_type', Path)\n\treturn click.Path(file_okay=True, dir_okay=False, **kw)\n",
       "\tkw.setdefault('path_type', Path)\n\tkw.setdefault('resolve_path', True)\n\treturn click.Path(file_okay=True, dir_okay=False, **kw)\n", 'G5'),
@@ -546,4 +645,11 @@ VARIANTS = [
     V('split selection: the second step tests the option, not the loaded signatures (--use-db labelled with file ids)', 'B', _D, _REFSEL, _REFSEL2.replace("\tif ref_sigs is not None:\n\t\tref_ids", "\tif rs is not None:\n\t\tref_ids"), 'G1',
       also=[(_CM, _GETDB, _GETSIG + _GETDB)]),
     V('context method returns the cache attribute instead of the signatures property', 'B', _D, _REFSEL, _REFSEL2, 'G1', also=[(_CM, _GETDB, _GETSIG.replace("return self.signatures", "return self._signatures") + _GETDB)]),
+    # ---- third round: one NamedTuple per side, classmethod constructors, fields unpacked; decided on abstract paths
+    V('E: the parallel locals of each side become a NamedTuple built by classmethod constructors and unpacked', 'E', _D, _QSEL, _QREC, also=_rec()),
+    V('records: writer gets the labels of the two sides swapped', 'B', _D, _QSEL, _QREC, 'G2', also=_rec(extra=[(_D, "dump_dmat_csv(output, dmat, query_ids, ref_ids)", "dump_dmat_csv(output, dmat, ref_ids, query_ids)")])),
+    V('records: the signature constructor stores the ids sorted', 'B', _D, _QSEL, _QREC, 'G1', also=_rec(cls=_RECCLS.replace("return cls(sigs.ids, None, sigs)", "return cls(sorted(sigs.ids), None, sigs)"))),
+    V('records: the reference side is read from the query list options', 'B', _D, _QSEL, _QREC, 'G', also=_rec(rrec=_RREC.replace("SideInput.from_files(r, rl, rdir)", "SideInput.from_files(r, ql, qdir)"))),
+    V('records: the reference record is unpacked from the query record', 'B', _D, _QSEL, _QREC, 'G1', also=_rec(rrec=_RREC.replace("ref_ids, ref_files, ref_sigs = ref\n", "ref_ids, ref_files, ref_sigs = query\n"))),
+    V('records: square labels the columns with the database ids of an earlier branch', 'B', _D, _QSEL, _QREC, 'G', also=_rec(rrec=_RREC.replace("ref = SideInput(query.ids, None, None)", "ref = SideInput(query.ids[::-1], None, None)"))),
 ]
